@@ -4,6 +4,8 @@ import ScyllaVerif.Model.C08Value
 import ScyllaVerif.Model.C08Tablet
 import ScyllaVerif.Model.C08SchemaType
 import ScyllaVerif.Model.C08Features
+import ScyllaVerif.Model.C08Reader
+import ScyllaVerif.Model.C08Shard
 import ScyllaVerif.Drive.C01
 /-! Line-protocol driver for C08.
 
@@ -457,7 +459,19 @@ def runSchemaType (bs : Bytes) (uni : List (Bytes × UCls)) : String :=
     s!"{(line.take 200).toString}… len={line.utf8ByteSize} h={hex64 (fnv64 line)}"
   else line
 
-/-- `s <SUPPORTED body hex|->`: the option map, then the negotiated features -/
+/- `s <SUPPORTED body hex|->`: the option map, then the negotiated features and the shard token -/
+/-- `sh=<shard>,<nr>,<msb>,<shard_of of each probe token, joined by />` / `sh=err:<label>`:
+`ShardInfo::try_from(&options)` and `get_sharder().shard_of(..)` on the same option map. -/
+def shardTok (opts : List (Bytes × List Bytes)) : String :=
+  open ScyllaVerif.C08Sh in
+  match shardInfoOfSupported opts with
+  | .ok si =>
+    s!"sh={si.shard},{si.nr},{si.msb}," ++ "/".intercalate (PROBE_TOKENS.map (fun t => toString (shardOf si.nr si.msb (tokenNew t))))
+  | .error e =>
+    "sh=err:" ++ (match e with
+      | .noShardInfo => "noShardInfo" | .missingSome => "missingSome" | .missingValues => "missingValues"
+      | .zeroShards => "zeroShards" | .shardOutOfRange => "shardOutOfRange" | .parse => "parse")
+
 def runSupported (bs : Bytes) : String :=
   match readStringMultimap { buf := bs } with
   | (.ok opts, _) =>
@@ -465,9 +479,55 @@ def runSupported (bs : Bytes) : String :=
     | .panic site => "MODEL-PANIC " ++ site
     | .ok f =>
       let o := fun (x : Option String) => x.getD "-"
-      s!"feat rl={o (f.rateLimit.map toString)} lwt={o (f.lwtMask.map toString)} tab={if f.tablets then 1 else 0} mid={if f.metadataId then 1 else 0}"
+      s!"feat rl={o (f.rateLimit.map toString)} lwt={o (f.lwtMask.map toString)} tab={if f.tablets then 1 else 0} mid={if f.metadataId then 1 else 0} " ++ shardTok opts
   | (.err _, _) => "supported err"
   | (.panic k, _) => "MODEL-PANIC " ++ k
+
+/-! ### `r` / `R` / `k`: the connection reader's dispatch on the header's stream field (Model/C08Reader.lean) -/
+
+open ScyllaVerif.C08R in
+def runReaderCase (n : Nat) (bs : Bytes) : String :=
+  match runReader n bs with
+  | .panic k => "MODEL-PANIC " ++ k
+  | .err k => "MODEL-ERR " ++ k
+  | .ok r =>
+    let one := fun (k : Nat) =>
+      match r.delivered.find? (fun d => d.req = k) with
+      | some d => s!"{k}=ok:{d.stream}:{d.flags}:{d.opcode}:{if d.body.isEmpty then "-" else hx d.body}"
+      | none => s!"{k}=err:Broken:{r.broken}"
+    " ".intercalate (s!"rd broken={r.broken}" :: (List.range n).map one)
+
+def streamFrame (s : Int) : Bytes :=
+  let u := (if s < 0 then s + 65536 else s).toNat
+  [0x84, 0x00, UInt8.ofNat (u / 256), UInt8.ofNat (u % 256), 0x08, 0x00, 0x00, 0x00, 0x00]
+
+open ScyllaVerif.C08R in
+/-- one connection per stream id in `lo ..= lo + cnt - 1`: `n` requests in flight, one empty RESULT frame, EOF -/
+def runSweep (n : Nat) (lo : Int) (cnt : Nat) : String :=
+  let step := fun (acc : Nat × Nat × Nat × Nat) (i : Nat) =>
+    let (u, dl, cl, ot) := acc
+    match runReader n (streamFrame (lo + i)) with
+    | .ok r =>
+      if r.broken == "UnexpectedStreamId" ∧ r.delivered.isEmpty then (u + 1, dl, cl, ot)
+      else if r.broken == "FrameHeaderParseError" ∧ r.delivered.length == 1 then (u, dl + 1, cl, ot)
+      else if r.broken == "FrameHeaderParseError" ∧ r.delivered.isEmpty then (u, dl, cl + 1, ot)
+      else (u, dl, cl, ot + 1)
+    | _ => (u, dl, cl, ot + 1)
+  let (u, dl, cl, ot) := (List.range cnt).foldl step (0, 0, 0, 0)
+  s!"sweep unexpected={u} delivered={dl} closed={cl} other={ot}"
+
+open ScyllaVerif.C08R in
+/-- `ResponseHandlerMap::lookup` itself, on every id of the range in turn (one map with `n` handlers): the slice
+index in `StreamIdSet::free` is reached with negative ids too, where it panics (the reader never passes them). -/
+def runLookups (n : Nat) (lo : Int) (cnt : Nat) : String :=
+  let step := fun (acc : HMap × Nat × Nat × Nat) (i : Nat) =>
+    let (m, hd, mi, pa) := acc
+    match lookup m (lo + i) with
+    | .ok (.handler _, m1) => (m1, hd + 1, mi, pa)
+    | .ok (.missing, m1) => (m1, hd, mi + 1, pa)
+    | _ => (m, hd, mi, pa + 1)
+  let (_, hd, mi, pa) := (List.range cnt).foldl step (allocateN HMap.new n 0, 0, 0, 0)
+  s!"lk handler={hd} missing={mi} panic={pa}"
 
 def run (case impl : String) : String :=
   match words case with
@@ -488,6 +548,20 @@ def run (case impl : String) : String :=
     match (if hex == "-" then some [] else parseHex hex) with
     | some bs => runSupported bs
     | none => "bad-case"
+  | ["r", n, hex] =>
+    match n.toNat?, (if hex == "-" then some [] else parseHex hex) with
+    | some n, some bs => if n ≤ 64 then runReaderCase n bs else "bad-case"
+    | _, _ => "bad-case"
+  | ["R", n, lo, cnt] =>
+    match n.toNat?, lo.toInt?, cnt.toNat? with
+    | some n, some lo, some cnt =>
+      if n ≤ 64 ∧ -32768 ≤ lo ∧ lo + cnt ≤ 32768 ∧ cnt ≤ 4096 then runSweep n lo cnt else "bad-case"
+    | _, _, _ => "bad-case"
+  | ["k", n, lo, cnt] =>
+    match n.toNat?, lo.toInt?, cnt.toNat? with
+    | some n, some lo, some cnt =>
+      if n ≤ 64 ∧ -32768 ≤ lo ∧ lo + cnt ≤ 32768 ∧ cnt ≤ 4096 then runLookups n lo cnt else "bad-case"
+    | _, _, _ => "bad-case"
   | ["t", hex, u] =>
     match (if hex == "-" then some [] else parseHex hex), parseUni u with
     | some bs, some uni => if utf8ok bs then runSchemaType bs uni else "skip not-utf8"
